@@ -31,7 +31,13 @@ EvBad(CT, ev) ==
     [] ev.kind = "unify" ->
          IF UnifierOK(CT, Box(ev.t1), Box(ev.t2), [x \in DOMAIN ev.sigma |-> Box(ev.sigma[x])], ev.same) THEN {}
          ELSE {<<"unify.Unifier", IF PolarityClash(ev.t1, ev.t2) THEN "PolarityClash"
+                                   \* both are variables and the first one's bound mentions type variables: the code compares the
+                                   \* variable-free approximation of that bound (to_type_variable_free), which is not a supertype of it
+                                   ELSE IF ev.t1.k = "V" /\ ev.t2.k = "V" /\ ev.t1.a # <<>> /\ FreeVars(ev.t1.a[1]) # {} THEN "ApproximatedVariableBound"
                                    ELSE IF ~ev.same /\ ev.t1.k = "C" /\ ~Ground(ev.t1) THEN "OpenTargetSupertypeMode" ELSE "plain">>}
+    \* (the pool of candidate types is the program's, not a controlled one: a projection *inside* a chosen argument was made
+    \*  elsewhere - C17 judges those by provenance - so SwitchesDeep is not an EV clause)
+    [] ev.kind = "instantiate" -> {b \in BadEvent(CT, BoxEv(ev)) : b[1] # "SwitchesDeep"}
     [] OTHER -> BadEvent(CT, BoxEv(ev))
 EvReport == LET ev == Cases[c].events[e]  CT == Cases[c].ct IN
             IF ~Judgeable(CT, ev) THEN PrintT(ToJson([case |-> Cases[c].id, event |-> e, skipped |-> TRUE, bad |-> {}]))
